@@ -1136,3 +1136,27 @@ func init() {
 			File: "merge.go", Old: "		err := normalizeSetField(cfg, opts, noTagOpts, k.String(), from.MapIndex(k))\n		if err != nil {\n			return err\n		}\n", New: "		if opts.pathSep == \"\" && !cfg.HasField(k.String()) && !('0' <= k.String()[0] && k.String()[0] <= '9') {\n			val, err := normalizeValue(opts, noTagOpts, context{}, from.MapIndex(k))\n			if err != nil {\n				return err\n			}\n			if err := (namedField{k.String()}).SetValue(opts, cfgSub{cfg}, val); err != nil {\n				return err\n			}\n			continue\n		}\n		err := normalizeSetField(cfg, opts, noTagOpts, k.String(), from.MapIndex(k))\n		if err != nil {\n			return err\n		}\n", Expect: pr[1] + "/ucfg.normalizeMapInto"})
 	}
 }
+
+func init() {
+	// round 10 (C05-r10b): options derived per field take part in the normalisation of that field
+	addControl(control{Prop: "C05", Name: "field-normalised-under-options-of-its-own", Rule: "R05g", Kind: "mutant", Quick: true,
+		File: "merge.go", Old: "			err = normalizeSetField(cfg, opts, tagOpts, name, v.Field(i))\n", New: "			fopts := opts\n			if tagOpts.cfgHandling != cfgDefaultHandling {\n				o := *opts\n				o.configValueHandling = tagOpts.cfgHandling\n				fopts = &o\n			}\n			err = normalizeSetField(cfg, fopts, tagOpts, name, v.Field(i))\n", Expect: "R05g/ucfg.normalizeStructInto"})
+	addControl(control{Prop: "C05", Name: "options-through-a-local", Rule: "R05g", Kind: "refactor",
+		File: "merge.go", Old: "			err = normalizeSetField(cfg, opts, tagOpts, name, v.Field(i))\n", New: "			o := opts\n			err = normalizeSetField(cfg, o, tagOpts, name, v.Field(i))\n"})
+}
+
+func init() {
+	// 78fcfac: the removers guard their receiver like the readers
+	addControl(control{Prop: "C07", Name: "del-dereferences-a-nil-receiver", Rule: "R07s", Kind: "mutant", Quick: true,
+		File: "ucfg.go", Old: "func (f *fields) del(name string) bool {\n	if f == nil {\n		return false\n	}\n", New: "func (f *fields) del(name string) bool {\n", Expect: "R07s/(*ucfg.fields).del"})
+	addControl(control{Prop: "C07", Name: "delat-dereferences-a-nil-receiver", Rule: "R07s", Kind: "mutant",
+		File: "ucfg.go", Old: "func (f *fields) delAt(i int) bool {\n	if f == nil {\n		return false\n	}\n", New: "func (f *fields) delAt(i int) bool {\n", Expect: "R07s/(*ucfg.fields).delAt"})
+}
+
+func init() {
+	// 00c881a: uintptr is an unsigned kind
+	addControl(control{Prop: "C03", Name: "uintptr-not-an-unsigned-kind", Rule: "R03h", Kind: "mutant", Quick: true,
+		File: "util.go", Old: "reflect.Uint32, reflect.Uint64, reflect.Uintptr:\n		return true", New: "reflect.Uint32, reflect.Uint64:\n		return true", Expect: "R03h/ucfg.kind predicates/kind Uintptr"})
+	addControl(control{Prop: "C03", Name: "unsigned-kinds-by-range", Rule: "R03h", Kind: "refactor",
+		File: "util.go", Old: "func isUint(k reflect.Kind) bool {\n	switch k {\n	case reflect.Uint, reflect.Uint8, reflect.Uint16, reflect.Uint32, reflect.Uint64, reflect.Uintptr:\n		return true\n	default:\n		return false\n	}\n}", New: "func isUint(k reflect.Kind) bool {\n	return reflect.Uint <= k && k <= reflect.Uintptr\n}"})
+}
